@@ -74,7 +74,9 @@ pub fn gen_c11(rng: &mut Rng, np: usize) -> Node {
         let p2 = probes(rng, "#c2", &[], &mut id);
         tail = Node::seq(tail, Node::seq(c2, p2));
     }
-    let mut script = Node::seq(before, tail);
+    // in a quarter of the scripts the canon is reachable without the appends: the designated peer may canonicalize
+    // an empty or partial stream first and see the appended values only in a later run
+    let mut script = if rng.chance(25) { Node::par(before, tail) } else { Node::seq(before, tail) };
     if rng.chance(35) {
         // per-iteration stream and canon inside a fold over a scalar array
         let a = id();
